@@ -15,3 +15,5 @@ CONSTANTS
   PartFix = FALSE
   SubAt = "first"
   SyncSteps = FALSE
+  StallSteps = FALSE
+  SkipSeenByListing = FALSE
